@@ -125,7 +125,7 @@ Proof.
       eapply two; [exact Hd|].
       unfold release. cbn [set_inflight pool cfgN]. destruct (Z.ltb_spec (zlen (pool s)) (cfgN s)).
       * destruct (on_frame _ _ _ _ _ _) as [r' o]. cbn [fst]. apply one. unfold proj. cbn. apply t_recv_release. unfold plen, zlen in *. lia.
-      * cbn [fst]. apply one. unfold proj. cbn. apply t_recv_release_fail.
+      * destruct (on_frame _ _ _ _ _ _) as [r' o]. cbn [fst]. apply one. unfold proj. cbn. apply t_recv_release_fail.
     + destruct (on_frame _ _ _ _ _ _) as [r' o]. cbn [fst]. apply one. unfold proj. cbn [add_finished set_inflight pool inflight cfgN].
       rewrite <- sremove_proj, <- lremove_keys. apply t_delete_explicit.
   - (* a non-final frame does not touch the pool or the key set *)
